@@ -206,6 +206,7 @@ def check_shape(case):
                                     continue
                                 calls += 1
                                 rt = int if ret == 'int' else tuple
+                                held = (cpos.x, cpos.y, cpos.z) if hasattr(cpos, 'xyz') else None
                                 if entry == 'specific':
                                     fn = world.get_moore_neighbours if metric == 'moore' else \
                                         world.get_neumann_neighbours
@@ -216,6 +217,12 @@ def check_shape(case):
                                     got = world.get_neighbours(cpos, radius=r, incl_center=incl, ret_type=rt,
                                                                mode=metric)
                                 exp = exp_i if ret == 'int' else exp_t
+                                if held is not None and [(type(v), v) for v in (cpos.x, cpos.y, cpos.z)] != \
+                                        [(type(v), v) for v in held]:
+                                    # a query reads the position it is given (an agent's own component): it stays as it was
+                                    raise Violation(f'{metric} neighbourhood query (centre given as {fname}, via {entry}) changed '
+                                                    f'the position component it was handed', expected=[repr(v) for v in held],
+                                                    observed=[repr(v) for v in (cpos.x, cpos.y, cpos.z)])
                                 if fname in ('id', 'pc0') and isinstance(got, list):
                                     # the caller may do what it likes with the answer: ask again afterwards
                                     got.reverse()
@@ -254,6 +261,54 @@ def large_unbounded_case(case):
                                     f'({n} cells): the whole grid is within reach', expected=want,
                                     observed=len(got) if isinstance(got, list) else repr(got))
     return q
+
+
+def large_window_case(case):
+    """Genuinely three-dimensional windows of 65536 cells and more (whole-grid and clipped blocks, both metrics): the
+    cells in range, in ascending cell order.  Reference: numbering x fastest, then y, then z, computed here."""
+    reset_library()
+    w, h, d = case['dims']
+    world = mk(new_model(seed=1), 'discrete', case['dims'])
+    cx, cy, cz = case['centre']
+    r = case['r']
+    zz, yy, xx = np.meshgrid(np.arange(d), np.arange(h), np.arange(w), indexing='ij')
+    ids = (zz * h + yy) * w + xx
+    if case['metric'] == 'moore':
+        inside = np.maximum(np.maximum(abs(xx - cx), abs(yy - cy)), abs(zz - cz)) <= r
+    else:
+        inside = (abs(xx - cx) + abs(yy - cy) + abs(zz - cz)) <= r
+    q = 0
+    for incl in (False, True):
+        keep = inside.copy()
+        if not incl:
+            keep[cz, cy, cx] = False
+        exp = ids[keep]                      # boolean indexing walks the array in C order: ascending ids
+        fn = world.get_moore_neighbours if case['metric'] == 'moore' else world.get_neumann_neighbours
+        for form in ('tuple', 'id'):
+            centre = (cx, cy, cz) if form == 'tuple' else int((cz * h + cy) * w + cx)
+            got = fn(centre, r, incl, int)
+            q += 1
+            if not isinstance(got, list) or len(got) != len(exp) or not np.array_equal(np.asarray(got, dtype=np.int64), exp):
+                k = next((i for i, (a, b) in enumerate(zip(got, exp.tolist())) if a != b), min(len(got), len(exp)))
+                raise Violation(f'{case["metric"]} neighbourhood of cell {(cx, cy, cz)} (given as {form}) radius {r} '
+                                f'incl_center={incl} on shape {case["dims"]}: {len(exp)} cells in ascending order expected, '
+                                f'first difference at position {k}', expected=exp[k:k + 5].tolist(), observed=got[k:k + 5])
+        got_t = fn((cx, cy, cz), r, incl, tuple)
+        q += 1
+        exp_t = list(zip(xx[keep].tolist(), yy[keep].tolist(), zz[keep].tolist()))
+        if [_n(v) for v in got_t] != exp_t:
+            raise Violation(f'{case["metric"]} neighbourhood of cell {(cx, cy, cz)} radius {r} incl_center={incl} on shape '
+                            f'{case["dims"]} as coordinates: differs from the cells in range in ascending cell order',
+                            expected=len(exp_t), observed=len(got_t))
+    return q
+
+
+def large_window_cases():
+    for dims, centre, r in (([41, 41, 41], (20, 20, 20), 20), ([50, 45, 40], (25, 22, 20), 30), ([50, 45, 40], (0, 0, 0), 42),
+                            ([50, 45, 40], (49, 44, 39), 43), ([40, 45, 50], (20, 22, 25), 21), ([64, 32, 33], (0, 31, 0), 70)):
+        for metric in ('moore', 'neumann'):
+            yield {'leg': 'large_window', 'dims': dims, 'centre': list(centre), 'r': r if metric == 'moore' else 3 * r,
+                   'metric': metric}
 
 
 def _n(v):
@@ -411,6 +466,13 @@ def run(ctx):
                 ctx.transitions += hbfs._guard(large_unbounded_case, case)
             except Violation as v:
                 ctx.report(case, v)
+        for case in large_window_cases():
+            ctx.traces += 1
+            try:
+                ctx.transitions += hbfs._guard(large_window_case, case)
+            except Violation as v:
+                ctx.report(case, v)
+                break
     ctx.leg('shapes', shapes=len(cases))
     if not ctx.violations and not ctx.small:
         pairs = [(0, 1), (1, 0), (2, 3), (3, 2), (4, 5), (0, 0), (1, 5), (4, 2)]
@@ -425,6 +487,9 @@ def run(ctx):
 def replay(case):
     if case['leg'] == 'two_callers':
         hbfs._guard(two_callers_case, case)
+        return
+    if case['leg'] == 'large_window':
+        hbfs._guard(large_window_case, case)
         return
     if case['leg'] == 'large_unbounded':
         hbfs._guard(large_unbounded_case, case)
